@@ -242,16 +242,29 @@ pub fn real_history_on<T: Nums + Evaluate + Sync>(m: &mut Mon, r: &mut Rng, pw: 
 
 /// Workload B: breadth-first exploration of evaluator states (hook H1 used for hashing only).
 /// From every reachable state every alphabet query is applied and its answer checked.
+/// (front segments skipped, bits of the last argument) through the library's observation hook; None in the
+/// configuration built without hooks (the state exploration is skipped there, the history lanes are not)
+#[cfg(feature = "hooks")]
+fn ev_state<T>(ev: &PiecewiseEvaluator<T>) -> Option<(usize, u64)> {
+    let (a, _b, c) = ev.verif_state();
+    Some((a, c))
+}
+#[cfg(not(feature = "hooks"))]
+fn ev_state<T>(_ev: &PiecewiseEvaluator<T>) -> Option<(usize, u64)> {
+    None
+}
+
 pub fn explore(m: &mut Mon, prop_nan: bool, ends: &[f64], alphabet: &[f64], max_states: usize) {
+    if !cfg!(feature = "hooks") {
+        m.count("state_exploration_skipped_in_the_build_without_hooks");
+        return;
+    }
     let pw = tag_pw(ends);
     type St = (usize, u64);
     let mut paths: HashMap<St, Vec<u32>> = HashMap::new();
     let mut queue: VecDeque<St> = VecDeque::new();
     let ev0 = PiecewiseEvaluator::new(&pw.segments);
-    let s0 = {
-        let (a, _b, c) = ev0.verif_state();
-        (a, c)
-    };
+    let s0 = ev_state(&ev0).expect("hooks");
     paths.insert(s0, vec![]);
     queue.push_back(s0);
     let mut transitions = 0u64;
@@ -310,8 +323,7 @@ pub fn explore(m: &mut Mon, prop_nan: bool, ends: &[f64], alphabet: &[f64], max_
                     }
                 }
             }
-            let (a, _b, c) = ev.verif_state();
-            let ns = (a, c);
+            let ns = ev_state(&ev).expect("hooks");
             if !paths.contains_key(&ns) {
                 if paths.len() >= max_states {
                     complete = false;
